@@ -543,6 +543,27 @@ def c20(ctx):
     trace = os.path.join(ctx.work, "models.ndjson")
     ctx.vh("drive_models", extra=["--n", "60", "--trace", trace])
     ctx.required = {"buf_mut_shrink": 1}
+    if ctx.tier == "thorough":
+        # the same case families under AddressSanitizer, built WITHOUT debug assertions so that unchecked accesses really happen
+        asan = core.build_asan()
+        ctx.notes.append("AddressSanitizer pass: nightly toolchain, profile asan (no debug assertions, no overflow checks)")
+        for kind, cfgs in (("fixed", fixed_cfgs(ctx)[:4]), ("fast", fast_cfgs(ctx)[:3]), ("floatclass", floatclass_cfgs(ctx)[:2]), ("uniform", uniform_cfgs(ctx)[:4]), ("leaky", leaky_cfgs(ctx)[:2])):
+            for (b, p_, maxlen, maxval) in cfgs:
+                cases = os.path.join(ctx.work, "asan_%s_%d_%d.ndjson" % (kind, b, p_))
+                ctx.tlc("MC_Models", {"Kind": '"%s"' % kind, "B": b, "P": p_, "MaxLen": maxlen, "MaxVal": maxval}, invariants=["Emit"], emit_to=cases, label="MC_Models_asan")
+                ctx.vh("replay", mode="c20", infile=cases, binary=asan)
+        cases = os.path.join(ctx.work, "backend.ndjson")
+        ctx.vh("replay", mode="c20", infile=cases, binary=asan)
+        for (w, s, md, ms, pset) in RDEC_QUICK:
+            cases = os.path.join(ctx.work, "asan_rdec_%d_%d.ndjson" % (w, s))
+            ctx.tlc("MC_RangeDec", {"W": w, "S": s, "MaxData": md, "MaxSyms": ms, "PSet": pset}, invariants=["Emit"], emit_to=cases)
+            ctx.vh("replay", mode="c10", infile=cases, binary=asan)
+        ctx.vh("drive_models", extra=["--n", "100", "--trace", os.path.join(ctx.work, "asan_models.ndjson")], binary=asan)
+        ctx.vh("drive_huffman", extra=["--trace", os.path.join(ctx.work, "asan_huffman.ndjson")], binary=asan)
+        for (w, s, precs) in RANGE_DRIVE_QUICK[:6]:
+            ctx.vh("drive_range", extra=["--w", str(w), "--s", str(s), "--precs", precs, "--n", "3000", "--trace", os.path.join(ctx.work, "asan_r")], binary=asan)
+            ctx.vh("drive_ans", extra=["--w", str(w), "--s", str(s) if s != 6 else "6", "--precs", precs, "--n", "3000", "--trace", os.path.join(ctx.work, "asan_a")], binary=asan)
+        ctx.classes["asan_pass"] = 1
 
 
 def selftest():
